@@ -34,6 +34,38 @@ NPointInvalid(Tn, Pn, limit) ==
 NPointStrictlyInvalid(Tn, Pn, limit) ==
     \/ \E i \in 1..(Len(Pn) - 1) : Pn[i] < Pn[i + 1]
     \/ \E i \in 1..(Len(Pn) - 1) : Pn[i] > Pn[i + 1] /\ SlopeTooHigh(Tn, Pn, limit, i) /\ ~SlopeTie(Tn, Pn, limit, i)
+\* ---- node pressures anywhere on the real line (round 4).  A control VALUE is a real number: the constructor
+\* keyword pressure_points and the fitting parameter P_pointN accept any float, so the quantifier "control-point
+\* values ... within and outside their documented bounds" includes zero and negative node pressures.  The node
+\* pressure is P[i] = Sg[i] * 10^Pn[i] with Sg[i] \in {-1, 0, 1} (the magnitude of a zero is ignored); "inverted"
+\* is a statement about the PRESSURES, not about their logarithms (which do not exist for Sg < 1).
+RawLt(Pn, Sg, i, j) ==      \* P[i] < P[j]
+    \/ Sg[i] < Sg[j]
+    \/ Sg[i] = Sg[j] /\ ((Sg[i] = 1 /\ Pn[i] < Pn[j]) \/ (Sg[i] = -1 /\ Pn[i] > Pn[j]))
+RawLe(Pn, Sg, i, j) == ~RawLt(Pn, Sg, j, i)
+AllPositive(Sg) == \A i \in 1..Len(Sg) : Sg[i] = 1
+NPointInvertedS(Pn, Sg) == \E i \in 1..(Len(Pn) - 1) : RawLe(Pn, Sg, i, i + 1)
+NPointInvalidS(Tn, Pn, Sg, limit) ==
+    \/ NPointInvertedS(Pn, Sg)
+    \/ ~AllPositive(Sg)          \* no logarithm, no slope, no interpolant: nothing finite can be returned
+    \/ \E i \in 1..(Len(Pn) - 1) : SlopeTooHigh(Tn, Pn, limit, i)
+NPointStrictlyInvalidS(Tn, Pn, Sg, limit) ==
+    \/ \E i \in 1..(Len(Pn) - 1) : RawLt(Pn, Sg, i, i + 1)
+    \/ AllPositive(Sg) /\ NPointStrictlyInvalid(Tn, Pn, limit)
+\* As-built reading "npoint_logorder" (expected counterexample): order and slope are judged on log10 P computed
+\* in IEEE arithmetic: log10(negative) = NaN and every comparison with NaN is false; log10(0) = -inf.
+\* LogCls: 0 = NaN, 1 = -inf, 2 = finite.
+LogCls(Sg, i) == IF Sg[i] < 0 THEN 0 ELSE IF Sg[i] = 0 THEN 1 ELSE 2
+LogDiffGe0(Pn, Sg, i) ==      \* log P[i+1] - log P[i] >= 0 in IEEE arithmetic
+    LET a == LogCls(Sg, i)  b == LogCls(Sg, i + 1)
+    IN  IF a = 0 \/ b = 0 THEN FALSE
+        ELSE IF a = 1 /\ b = 1 THEN FALSE            \* -inf - -inf = NaN
+        ELSE IF a = 1 THEN TRUE                       \* x - -inf = +inf
+        ELSE IF b = 1 THEN FALSE                      \* -inf - x = -inf
+        ELSE Pn[i + 1] >= Pn[i]
+NPointRejectedLogOrder(Tn, Pn, Sg, limit) ==
+    \/ \E i \in 1..(Len(Pn) - 1) : LogDiffGe0(Pn, Sg, i)
+    \/ \E i \in 1..(Len(Pn) - 1) : Sg[i] = 1 /\ Sg[i + 1] = 1 /\ SlopeTooHigh(Tn, Pn, limit, i)
 NPointRaw(Tn, Pn, LP) ==
     [l \in 1..Len(LP) |-> Pwl(LP[l], Pn, [i \in 1..Len(Tn) |-> Q(Tn[i])])]
 NPointProfile(Tn, Pn, LP, sw, rule) ==
